@@ -32,11 +32,12 @@ def branch_map(fn_node, var=None):
         return r
     for n in ast.walk(fn_node):
         if isinstance(n, ast.If):
-            ls = lits(n.test)
-            if not ls or isinstance(n.test, ast.BoolOp) and isinstance(n.test.op, ast.And) and len(ls) > 2:
+            ptest, tbody, fbody = pos_if(n)
+            ls = lits(ptest)
+            if not ls or isinstance(ptest, ast.BoolOp) and isinstance(ptest.op, ast.And) and len(ls) > 2:
                 continue
             calls, assigns = set(), set()
-            for s in n.body:
+            for s in tbody:
                 for c in ast.walk(s):
                     if isinstance(c, ast.Call) and isinstance(c.func, ast.Attribute) and isinstance(c.func.value, ast.Name) and c.func.value.id == "self":
                         calls.add(c.func.attr)
